@@ -416,6 +416,9 @@ def runKPass (j : Json) : Except String Json := do
   let s ← match (← getStr j "pass") with
     | "dce" => pure (dceModelK fuel w0 g funcs)
     | "ie" => pure (ieModelK exact fuel w0 g funcs)
+    | "ofix" => pure (ofixModelK fuel w0 g funcs)
+    | "rminit" => pure (rmInitInputsK w0 g)
+    | "addinit" => pure (addInitInputsK w0 g)
     | p => throw s!"unknown kernel pass {p}"
   return obj [("d", IrVerif.Drive.Kernel.deltaJ w0 s.w), ("raised", toJson s.raised),
     ("calls", toJson s.trace.length), ("replay_same", toJson (decide (replay w0 s.trace.reverse = s.w))),
